@@ -340,7 +340,6 @@ Qed.
 
 Theorem compile_correct_f1 F bld M B fuel host o budget :
   in_f1 M = true ->
-  handles_inj (main_names (main_cards M)) = true ->
   depth_ok (main_cards M) = true ->
   compile M default_options = COk B ->
   N.of_nat (length (Compiler.p_ids B)) < two32 ->
@@ -351,8 +350,8 @@ Theorem compile_correct_f1 F bld M B fuel host o budget :
   forall n, no_collision (main_names (main_cards M)) n ->
     option_map vm_tree (read_var_by_name (C15Link.to_vm B) (snd r) n) = RefSem.assoc n (RefSem.ob_globals o).
 Proof.
-  intros HM Hinj Hdepth HB Hlen Href Hbud.
-  destruct (compile_f1_shape M B HM HB Hlen) as (rest & Hbc & Hnames & Tinj & Tlt).
+  intros HM Hdepth HB Hlen Href Hbud.
+  destruct (compile_f1_shape M B HM HB Hlen) as (rest & Hbc & Hnames & Tinj & Tlt & Hinj).
   destruct (eval_program_f1 fuel M host o HM Href) as (g & Hrun & Hkind & Hgs & Hglob).
   pose proof (in_f1_cards M HM) as Hcards.
   set (T := Compiler.p_ids B) in *. set (cards := main_cards M) in *. set (names := main_names cards) in *.
